@@ -170,7 +170,7 @@ def main():
     if (not proof_ok or res["disagree"]) and not res["fails"] and tier == "quick":
         # search for a concrete failing input with the thorough streams + targeted neighbourhood
         searched = True
-        extra = P.streams("thorough", random.Random(seed + 1))
+        extra = P.streams("search", random.Random(seed + 1))
         extra.append(("neighbourhood", P.neighbourhood([cases[i] for i in res["disagree"][:20]], rng)))
         c2, i2, im2, mo2 = run_cases(P, extra, workdir, model_bin)
         r2 = analyse(P, c2, i2, im2, mo2)
